@@ -759,6 +759,15 @@ def _soup_expr(r, ctx, depth, ty="int"):
 
 
 def gen_semsoup(r):
+    if r.random() < 0.06:
+        # `$next` after fields whose end is a large run-time value: diagnostics located at the user's own `$next`
+        w = r.choice([1, 2, 4, 8, 8, 8])
+        ty = r.choice(["UInt", "UInt", "Int"])
+        start2 = r.choice(["x", "x", "x * 2", "x + 1", "(x * x)", "8", "x - 1"])
+        size2 = r.choice(["8", "8", "1", "x", "4"])
+        third = r.choice(["$next", "$next", "$next + 1", "$next * 2", "$next + x"])
+        return ('[$default byte_order: "LittleEndian"]\nstruct Foo:\n  0 [+%d]  %s  x\n  %s [+%s]  %s  y\n  %s [+1]  UInt  z\n'
+                % (w, ty, start2, size2, r.choice(["UInt", "UInt:8[]"]), third))
     lines = []
     # calm: every expression is plain, so the module is valid except (perhaps) for one attribute - the later passes and the
     # back end are reached
